@@ -501,6 +501,7 @@ fn build_graph<K: Kmer + Send + Sync + Serialize + DeserializeOwned + 'static>(n
     .boxed()]
 }
 
+#[cfg(not(fuzzing))]
 pub fn jobs(env: &Env) -> Vec<Box<dyn Job>> {
     let mut out: Vec<Box<dyn Job>> = Vec::new();
     crate::kmers_ge4!(build_graph, out, env);
